@@ -161,7 +161,7 @@ def build_callgraph(F):
     """path -> set(callee paths), resolved instance when available. Closures are
     attributed to themselves, plus an edge parent -> closure."""
     g = defaultdict(set)
-    for f in F.fns:
+    for f in getattr(F, "all_fns", F.fns):
         mir = f.get("mir")
         if not mir:
             continue
